@@ -11,6 +11,17 @@ theorem routeList_msgs (ms : List (Msg P)) : routeList (ms.map JVal.msg) = ms :=
   | nil => simp [routeList]
   | cons m ms ih => simp [routeList, routeAll, ih]
 
+theorem routeList_append (a b : List (JVal P)) : routeList (a ++ b) = routeList a ++ routeList b := by
+  induction a with
+  | nil => simp [routeList]
+  | cons v vs ih => simp [routeList, ih]
+
+/-- a member the message class rejects is skipped where it stands: the members before and after it
+    are routed as if it were not there -/
+theorem routeAll_skip_junk (a b : List (JVal P)) :
+    routeAll (.arr (a ++ .junk :: b)) = routeAll (.arr a) ++ routeAll (.arr b) := by
+  simp [routeAll, routeList_append, routeList]
+
 theorem routeAll_batch (ms : List (Msg P)) : routeAll (.arr (ms.map JVal.msg)) = ms := by
   simp [routeAll, routeList_msgs]
 
